@@ -39,6 +39,11 @@ def main():
     assert sh("git status --porcelain", cwd=REPO).stdout.strip() == "", "/repo is not clean"
     result = {"seed": os.path.basename(d), "property": meta["property"], "at": time.strftime("%Y-%m-%d %H:%M:%S"), "checks": {}}
     demo = None
+    prev = os.path.join(d, "result.json")
+    if not verify and os.path.exists(prev):
+        for k, v in json.load(open(prev)).items():   # keep what an earlier --verify run established
+            if k in ("demo_passes_without_patch", "demo_fails_with_patch", "suite_passes_with_patch"):
+                result[k] = v
     try:
         if verify:
             demo, rel = demo_place(meta, d)
